@@ -1,5 +1,6 @@
 import Driver.Util
 import HeimdallModel.Spec.Lookup
+-- @family trie
 /-! Line-protocol family `trie`: operation sequences against the routing-tree model -/
 open Lean Heimdall
 
